@@ -189,6 +189,7 @@ FaultReply(ch, f) ==
     [] f = "otherkey"  -> Sig("other", m, e[3], TRUE)
     [] f = "wrongbf"   -> Sig(key, m, NoBf, TRUE)
     [] f = "identity"  -> Sig(key, m, e[3], FALSE)
+    [] f = "otherbf"   -> Sig(key, m, Bf(ch, e[2], OtherType(e[1])), TRUE)                                  \* blinded with the customer's OTHER factor
     [] f = "swapbal"   -> IF m[4] # m[5] THEN Sig(key, [m EXCEPT ![4] = m[5], ![5] = m[4]], e[3], TRUE)      \* the two balances exchanged
                                          ELSE Sig(key, [m EXCEPT ![4] = AltNum(m[4])], e[3], TRUE)
     [] f = "altslot2"  -> Sig(key, [m EXCEPT ![2] = <<"alt", 0, 0>>], e[3], TRUE)                        \* another nonce / another tag
